@@ -360,6 +360,8 @@ __visible_default void __cxa_throw(void *exception, void *type, void *dest)
 		pr_dbg2("%s: exception thrown from [%d]\n", __func__, mtdp->idx);
 
 		mtdp->in_exception = true;
+		/* the unwinder runs below this frame, landing pads above it */
+		mtdp->exception_frame = (unsigned long)__builtin_frame_address(0);
 
 		/*
 		 * restore return addresses so that it can unwind stack
@@ -384,6 +386,7 @@ __visible_default void __cxa_rethrow(void)
 		pr_dbg2("%s: exception rethrown from [%d]\n", __func__, mtdp->idx);
 
 		mtdp->in_exception = true;
+		mtdp->exception_frame = (unsigned long)__builtin_frame_address(0);
 
 		/*
 		 * restore return addresses so that it can unwind stack
@@ -421,6 +424,7 @@ __visible_default void _Unwind_Resume(void *exception)
 		}
 
 		mtdp->in_exception = true;
+		mtdp->exception_frame = (unsigned long)__builtin_frame_address(0);
 
 		/*
 		 * restore return addresses so that it can unwind stack
